@@ -700,6 +700,12 @@ fn check_curves(ctx: &Ctx, total: &mut Collector) {
 // ---------------------------------------------------------------------------------------
 // Rgb / Luma wrappers agree bitwise with the component functions
 
+/// a user-defined type-level gamma
+pub struct F1p8;
+impl palette::encoding::gamma::Number for F1p8 {
+    const VALUE: f64 = 1.8;
+}
+
 fn check_wrappers(ctx: &Ctx, c: &mut Collector) {
     use palette::rgb::Rgb;
     let sub = "wrappers";
@@ -843,6 +849,11 @@ fn check_wrappers(ctx: &Ctx, c: &mut Collector) {
         wrap!("Gamma<Srgb>", encoding::Gamma<encoding::Srgb, F2p2>, GammaFn<F2p2>);
         wrap64!("Gamma<Srgb>", encoding::Gamma<encoding::Srgb, F2p2>, GammaFn<F2p2>);
         wrap_luma!("Gamma<D65>", encoding::Gamma<D65, F2p2>, GammaFn<F2p2>);
+        // a user-defined gamma (the type-level number is a trait anyone may implement)
+        wrap!("Gamma<Srgb,1.8>", encoding::Gamma<encoding::Srgb, F1p8>, GammaFn<F1p8>);
+        wrap64!("Gamma<Srgb,1.8>", encoding::Gamma<encoding::Srgb, F1p8>, GammaFn<F1p8>);
+        wrap_luma!("Gamma<D65,1.8>", encoding::Gamma<D65, F1p8>, GammaFn<F1p8>);
+        wrap_luma!("Gamma<D50,1.8>", encoding::Gamma<D50, F1p8>, GammaFn<F1p8>);
         wrap!("(Srgb,RecOetf)", (encoding::Srgb, encoding::RecOetf), encoding::RecOetf);
         wrap64!("(Rec2020,Srgb)", (encoding::Rec2020, encoding::Srgb), encoding::Srgb);
         wrap!("(AdobeRgb,D50,ProPhotoRgb)", (encoding::AdobeRgb, D50, encoding::ProPhotoRgb), encoding::ProPhotoRgb);
